@@ -17,7 +17,7 @@ fn col_attr(ws: &Worksheet, c: i32) -> ColAttr {
 
 const NCOLS: usize = 2;
 
-pub fn h_col_width() {
+pub fn h_c29_col_width() {
     let mut ws = sheet_with(any_cols(NCOLS), vec![]);
     let c = any_col_index();
     let o = any_col_index();
